@@ -6,14 +6,19 @@ BASE_TEMPLATES = ['gsupport.go.tmpl', 'gh_roundtrip.go.tmpl']
 PAIR_SYM = ['gh_pair.go.tmpl', 'gpair_sym.go.tmpl']
 
 
+SHAPE_CANON = {}
+
+
 def programs(quick, seed):
     shapes = list(progs.nonrepeated_shapes(3 if quick else 4))
     rnd = random.Random(seed)
     if quick:
         shapes = rnd.sample(shapes, min(28, len(shapes)))
     P = {}
+    SHAPE_CANON.clear()
     for i, (s, n) in enumerate(shapes):
         P['r%03d' % i] = progs.c15_program('r%03d' % i, s, offset=i)
+        SHAPE_CANON['r%03d' % i] = progs.shape_canon(s)
     # a wider hand-written one: all six types required and optional, two groups (one nested)
     L, G = progs.leaf, progs.group
     P['rwide'] = progs.Program('rwide', [L('Id', 'int32', tag='id'), L('Big', 'int64', 'opt', tag='big'), L('Ratio', 'float32', tag='ratio'), L('Score', 'float64', 'opt', tag='score'),
@@ -164,6 +169,25 @@ def main(tier, replay):
         j0 = [j for j in jobs if j['name'].startswith('regen-rwide')] or jobs[:1]
         jobs.append({'name': 'sens-unrelated', 'pkg': j0[0]['pkg'], 'func': 'HarnessRegen', 'args': [2, 1, 0, 1, 1], 'opt': dict(j0[0]['opt']), 'expect': 'exactly the written values'})
     out = run_program_jobs_batched(c, mod, infos, jobs, batch=180, native_templates=['gpair_native.go.tmpl'])
+    # a shape that the C05 findings list names as a generator defect fails here for the same reason (the regenerated
+    # struct has the same shape): report it as a known finding keyed by the canonical shape
+    c05 = {}
+    for k in load_known():
+        if k.get('property') == 'C05' and k.get('kind') == 'finding':
+            for shp in k.get('shapes', []):
+                c05[shp] = k
+    kept = []
+    for (j, jr, ctx) in c.jobs:
+        m = re.match(r'regen-(r\d+) ', j['name'])
+        if m and SHAPE_CANON.get(m.group(1)) in c05 and (jr.get('violations') or jr.get('unsupported')):
+            k = c05[SHAPE_CANON[m.group(1)]]
+            c.known_hits['C05:' + k['group']] = 'parquetgen generator defect listed under C05 (%s) also breaks the regenerated reader, e.g. shape %s' % (k['group'], SHAPE_CANON[m.group(1)])
+            jr = dict(jr)
+            jr['violations'], jr['unsupported'] = [], {}
+            ctx = dict(ctx)
+            ctx['no_reach'] = True
+        kept.append((j, jr, ctx))
+    c.jobs = kept
     for n, why in struct_viol:
         v = {'label': 'regenerated struct has the same columns, nesting, optionality and types', 'kind': 'concrete', 'msg': why, 'notes': [P[n].canon()]}
         job = {'name': 'struct-%s %s' % (n, P[n].canon()), 'pkg': 'scratch/' + n, 'func': '-', 'args': []}
